@@ -425,6 +425,7 @@ func runC39(c *core.Check) {
 	if pk == nil {
 		return
 	}
+	deadStateRule(c, pk) // no unexported field is read without a writer (a cache flag never set, a saved value never saved)
 	c.Trust("golang.org/x/tools@v0.29.0 go/cfg", "sync.Mutex semantics")
 	a := &c39{c: c, pk: pk, info: pk.TypesInfo, fld: map[string]*types.Var{}}
 	a.state = prog.NamedType("./x/jsonrpc2", "inFlightState")
